@@ -131,6 +131,16 @@ fn real_main() -> i32 {
 }
 
 fn main() {
+    // The top-level process owns the scratch root; workers and plan-evaluation children put their
+    // scratch directories below it, and it is removed when the top-level process is done.
+    let top = std::env::var("VERIF_SCRATCH").is_err();
+    let root = std::env::temp_dir().join(format!("opcua-verif-run-{}", std::process::id()));
+    if top {
+        std::env::set_var("VERIF_SCRATCH", &root);
+    }
     let code = real_main();
+    if top {
+        let _ = std::fs::remove_dir_all(&root);
+    }
     std::process::exit(code);
 }
